@@ -8,10 +8,10 @@ use std::collections::BTreeMap;
 
 pub struct C04;
 
-const STEXT: [char; 7] = [' ', 'a', 'é', 'я', '一', '-', '|'];
+const STEXT: [char; 8] = [' ', 'a', 'é', 'я', '一', '°', '-', '|'];
 
 fn is_label(c: char) -> bool {
-    matches!(c, 'a' | 'b' | 'é' | 'я' | '一' | '二' | 'z' | '1')
+    matches!(c, 'a' | 'b' | 'é' | 'я' | '一' | '二' | 'z' | '1' | '°')
 }
 
 /// compare the text elements of `d` with the label characters of `input`
@@ -76,7 +76,7 @@ impl Prop for C04 {
         "C04"
     }
     fn rule(&self) -> &'static str {
-        "all rows over {space,a,é,я,一,-,|} up to length 5 (thorough 7), each alone and stacked on a row of dashes (one span); thorough: three-row documents text/dashes/text with rows up to length 4 \
+        "all rows over {space,a,é,я,一,° (East-Asian-ambiguous width),-,|} up to length 5 (thorough 7), each alone and stacked on a row of dashes (one span); thorough: three-row documents text/dashes/text with rows up to length 4 \
          and rows inside a box; every text element must be anchored at point Q of a cell and spell the input characters found at consecutive display columns; every label character is shown exactly once. \
          distinct_nontrivial = distinct (text count, text lengths) outcomes with at least one text"
     }
@@ -103,7 +103,7 @@ impl Prop for C04 {
         let m = if tier == Tier::Quick { 2 } else { 4 };
         v.push(Scope::new("three-rows", "text / dashes / text with both text rows up to the length bound", move |f| {
             let mut rows: Vec<String> = vec![];
-            enumr::strings_upto(&['a', 'é', '一', ' '], m, &mut |s| rows.push(s.iter().collect()));
+            enumr::strings_upto(&['a', 'é', '一', '°', ' '], m, &mut |s| rows.push(s.iter().collect()));
             for a in &rows {
                 for b in &rows {
                     let w = enumr::display_cols(a).max(enumr::display_cols(b)).max(1);
